@@ -72,13 +72,9 @@ func findWalkers(c *kit.Ctx) []*walker {
 		if f.Decl == nil || f.Body == nil {
 			continue
 		}
-		self := false
-		for _, call := range f.AllCalls(false) {
-			if f.CalleeFunc(call) == f {
-				self = true
-			}
-		}
-		if !self {
+		// the recursive call may sit in a function literal of the loop body
+		// (`go func() { … }()`); how such a literal is run is judged in R2
+		if !c06SelfRecursive(f) {
 			continue
 		}
 		var w *walker
@@ -142,13 +138,7 @@ func findSharedWalkers(c *kit.Ctx, direct map[*kit.Func]bool) []*walker {
 			continue
 		}
 		info := rec.Info()
-		self := false
-		for _, call := range rec.AllCalls(false) {
-			if rec.CalleeFunc(call) == rec {
-				self = true
-			}
-		}
-		if !self {
+		if !c06SelfRecursive(rec) {
 			continue
 		}
 		var pub *ast.CallExpr
@@ -363,6 +353,7 @@ func runC06(c *kit.Ctx) {
 	r2 := c.Rule("R2", "walker shape: publish, parents, recursion", 6)
 	r3 := c.Rule("R3", "parent lookup filter truth table", 5)
 	r4 := c.Rule("R4", "subject layout agreement", 6)
+	r5 := c.Rule("R5", "parents list has storage of its own", 1)
 
 	walkers := findWalkers(c)
 	if len(walkers) < 2 {
@@ -379,14 +370,17 @@ func runC06(c *kit.Ctx) {
 	c06HandlerArgs(c, m, r1, walkers)
 
 	// ---- R2
+	var loops []*walkLoop
 	for _, w := range walkers {
 		c.Analysed(w.f)
-		c06WalkerShape(c, m, r2, w, upf)
+		loops = append(loops, c06WalkerShape(c, m, r2, w, upf))
 	}
 	// ---- R3
 	c06UpTable(c, m, r3, upf)
 	// ---- R4
 	c06Subjects(c, r4, walkers)
+	// ---- R5
+	c06SharedParents(c, r5, upf, loops)
 }
 
 // c06HandlerArgs: the walker call in each handler passes (id, id[, parent], points)
